@@ -20,6 +20,7 @@ Proved against the real L2 `step`:
   the global state;
 * `U.frame` / `H.frame`: L2 steps of other threads leave the projection unchanged.
 -/
+set_option linter.unusedSimpArgs false
 namespace UrcuVerif.Src.CallRcuL
 open UrcuVerif UrcuVerif.CallRcu
 
@@ -479,6 +480,71 @@ def Guard (c : Cfg) (s : State) (h : Nat) (_ls : LState) : LLabel → Prop
   | .errno e => e = 11 → s.futex h ≠ -1
   | .bad => False
   | _ => True
+
+set_option hygiene false in
+macro "lift_case" : tactic => `(tactic| (
+  cases l <;> simp only [lstepAt, reduceCtorEq] at hs <;>
+  simp only [Obs, Guard] at ho hg <;>
+  (repeat' split at hs) <;> simp only [Option.some.injEq, reduceCtorEq] at hs <;> subst hs <;>
+  simp_all [toL2, run, step, Agree, bit, F_PAUSED, F_STOPPED]))
+
+/-- a local step whose observed values agree with the global state and whose global guard holds is the L2 run `toL2`
+(possibly empty: stutter) and the successor agrees with the local successor -/
+theorem lift_step (c : Cfg) (s : State) (h : Nat) (ls ls' : LState) (l : LLabel) (ha : Agree ls s h)
+    (ho : Obs s h ls l) (hg : Guard c s h ls l) (hs : lstep ls l = some ls') :
+    ∃ s', run c s (toL2 h ls l) = some s' ∧ Agree ls' s' h := by
+  rcases ls with ⟨pc, sub, batch, cnt, rt⟩
+  obtain ⟨hpc, hb, hc, hr⟩ := ha
+  simp only [] at hpc hb hc hr
+  subst hb hc hr
+  have hpc := hpc.symm
+  unfold lstep at hs
+  simp only [] at hs
+  cases pc
+  case none => simp [lstepAt] at hs
+  case dead => simp [lstepAt] at hs
+  case run => simp [lstepAt] at hs
+  case sub => simp [lstepAt] at hs
+  case asleep => simp [lstepAt] at hs
+  case start => lift_case
+  case dec0 => lift_case
+  case top => lift_case
+  case pausing => lift_case
+  case paused => lift_case
+  case splice => lift_case
+  case gp => lift_case
+  case inv => lift_case
+  case stopchk => lift_case
+  case emptychk => lift_case
+  case waitLd => lift_case
+  case waitFx => lift_case
+  case pollW => lift_case
+  case dec => lift_case
+  case pollN => lift_case
+  case exitSt => lift_case
+  case exitOr => lift_case
+
+
+/-- the helper whose thread executes a label -/
+def hidOf : Label → Option Nat
+  | .hStart h | .hDec0 h | .hTop h | .hPause h | .hUnpause h
+  | .hSplice h | .hGpEnd h | .hRunBegin h _ | .hRunEnd h | .hInvDone h
+  | .hSub h | .hStopChk h | .hEmptyChk h | .hWaitLd h | .hWaitFx h _
+  | .hSpurious h | .hPollW h | .hDec h | .hPollN h | .hExitSt h | .hExitOr h => some h
+  | _ => none
+
+/-- frame: labels that are not helper `h`'s own leave its projection unchanged – provided the helper exists
+(`h < nextH`: creation writes the fields of the *new* helper) and is not asleep in `futex_wait` (a waker's `wake` moves
+an `asleep` helper to `waitLd`; the local automaton fuses the sleep and the wake-up into the return of the `futex` call) -/
+theorem frame (c : Cfg) (s s' : State) (h : Nat) (L : Label)
+    (hh : hidOf L ≠ some h) (hlt : h < s.nextH) (hna : s.hpc h ≠ .asleep)
+    (hstep : step c s L = some s') : proj s' h = proj s h := by
+  have hne : h ≠ s.nextH := Nat.ne_of_lt hlt
+  cases L <;> simp only [hidOf, ne_eq, Option.some.injEq, reduceCtorEq, not_false_eq_true] at hh <;>
+    simp only [step] at hstep <;> (repeat' split at hstep) <;>
+    simp only [Option.some.injEq, reduceCtorEq] at hstep <;> subst hstep <;>
+    first | rfl | (have hh' := Ne.symm hh; simp [proj, upd, hh', hne, lockS, unlockS, newHelper, nestOn, nestOff]; done) |
+      (simp [proj, upd, hne, newHelper]; done) | (simp only [proj, upd]; split <;> simp_all)
 
 end H
 
